@@ -176,6 +176,15 @@ fn class_pair(rng: &mut Rng, name: &str, twist: Twist) -> (AClass, AClass) {
 			if rng.chance(1, 4) { s.vis.push(AAnn::Other("ann/SV".into())); }
 			if rng.chance(1, 4) { s.inv.push(AAnn::Other("ann/SI".into())); }
 			if rng.chance(1, 6) { s.perm = None; s.records = vec![]; }
+			// permitted subclasses that differ between the versions in every way two lists can (round 5): one side without the
+			// attribute, sub- and super-lists, other orders, disjoint lists, an empty list
+			if rng.chance(1, 3) {
+				const POOL: [&str; 4] = ["net/minecraft/P", "net/minecraft/Q", "net/minecraft/R", "net/minecraft/S"];
+				let (_, mut pa, mut pb) = list_pair_n(rng, 4); dedup(&mut pa); dedup(&mut pb);
+				let mk = |l: &[u32], absent: bool| -> Option<Vec<String>> { if l.is_empty() && absent { None } else { Some(l.iter().map(|n| POOL[(*n as usize - 1) % 4].to_owned()).collect()) } };
+				let (a1, a2) = (rng.chance(1, 2), rng.chance(1, 2));
+				c.perm = mk(&pa, a1); s.perm = mk(&pb, a2);
+			}
 			// the two versions say different things in fields the merge only copies
 			if rng.chance(1, 2) { s.opq = gen_opq7(rng); }
 			if rng.chance(1, 8) { s.attrs = vec![("Payload".into(), rng.next(), rng.range(0, 40))]; }
@@ -206,8 +215,8 @@ const CLASS_NAMES: [&str; 14] = ["net/minecraft/A.class", "net/minecraft/util/B.
 	"net/minecraft/Bootstrap.class", "net/minecraft.class", "net/Minecraft/M.class", "Default.class", "net/ü/𝒜.class"];
 const RES_NAMES: [&str; 12] = ["pack.png", "assets/lang/en.json", "data/x.txt", "log4j2.xml", "lib/x.class.txt", "X.SF", "version.json", "assets/ü.txt", "net/minecraft/data.bin",
 	"net/minecraft", "com/x.class/y", "com/google/Lib.CLASS"];
-const META_NAMES: [&str; 14] = ["META-INF/MANIFEST.MF", "META-INF/MOJANGCS.SF", "META-INF/MOJANGCS.RSA", "META-INF/X.DSA", "META-INF/services/x", "META-INF/sub/Y.SF", "meta-inf/Z.SF", "META-INF/.SF", "META-INF/a.RSA.txt", "META-INF/MANIFEST.MF.SF",
-	"META-INF/X.EC", "META-INF/x.sf", "META-INF/SIG.RSA/keep", "META-INF"];
+const META_NAMES: [&str; 18] = ["META-INF/MANIFEST.MF", "META-INF/MOJANGCS.SF", "META-INF/MOJANGCS.RSA", "META-INF/X.DSA", "META-INF/services/x", "META-INF/sub/Y.SF", "meta-inf/Z.SF", "META-INF/.SF", "META-INF/a.RSA.txt", "META-INF/MANIFEST.MF.SF",
+	"META-INF/X.EC", "META-INF/x.sf", "META-INF/SIG.RSA/keep", "META-INF", "META-INF/sub/k.EC", "META-INF/SIG-X", "META-INF/x.ec", "META-INF/KEY.DSA.bak"];
 const DIR_NAMES: [&str; 6] = ["net/", "net/minecraft/", "assets/", "META-INF/", "com/x.class/", "META-INF/D.SF/"];
 
 /// entry names for the rule sweep: every prefix x stem x suffix that touches one of the string tests of the
@@ -216,7 +225,7 @@ const DIR_NAMES: [&str; 6] = ["net/", "net/minecraft/", "assets/", "META-INF/", 
 pub fn rule_names() -> Vec<String> {
 	let prefixes = ["", "net/", "net/minecraft/", "net/minecraftx/", "net/minecraft", "net/minecraft/sub/", "META-INF/", "meta-inf/", "META-INF", "com/x/", "/", "net\\minecraft\\"];
 	let stems = ["A", "", "Bootstrap", "ü𝒜"];
-	let suffixes = [".class", ".SF", ".RSA", ".DSA", ".class/", ".CLASS", ".class.txt", "", "/", ".sf", ".class\\", ".classs"];
+	let suffixes = [".class", ".SF", ".RSA", ".DSA", ".EC", ".class/", ".CLASS", ".class.txt", "", "/", ".sf", ".dsa", ".DSA.txt", ".class\\", ".classs"];
 	let mut v: Vec<String> = vec![];
 	let mut add = |n: String| { if !n.is_empty() && n != "META-INF/MANIFEST.MF" && !v.contains(&n) { v.push(n); } };
 	for n in CLASS_NAMES.iter().chain(RES_NAMES.iter()).chain(META_NAMES.iter()).chain(DIR_NAMES.iter()) { add((*n).to_owned()); }
@@ -360,4 +369,70 @@ pub fn real_jar_pair(rng: &mut Rng, corpus: &Corpus, kinds: &mut Vec<&'static st
 	if rng.chance(1, 2) { let d = gen_bytes(rng); client.push(AEntry::new("pack.png", gen_time(rng), AContent::Other(d.clone()))); server.push(AEntry::new("pack.png", gen_time(rng), AContent::Other(d))); }
 	if rng.chance(1, 2) { rng.shuffle(&mut server); }
 	(client, server)
+}
+
+
+/// Multi-release entries (round 5): the same class under META-INF/versions/<n>/ and outside, entries of every kind
+/// below META-INF/versions/<n>/ (class in net/minecraft, class in the default package, class of a library package,
+/// resource, directory), in one of the four placements: 0 client only, 1 server only, 2 both equal, 3 both differing
+pub fn versions_pair(n: u32, placement: usize, parsed_repr: bool) -> (AJar, AJar) {
+	let mut client: AJar = vec![]; let mut server: AJar = vec![];
+	let t = (2020, 1, 2, 3, 4, 6);
+	let base = format!("META-INF/versions/{n}/");
+	let mut put = |name: String, c: AContent, s: AContent| {
+		if placement != 1 { client.push(AEntry { parsed_repr, ..AEntry::new(&name, t, c) }); }
+		if placement != 0 { server.push(AEntry { parsed_repr, deflate: true, ..AEntry::new(&name, t, s) }); }
+	};
+	for (i, (entry, cname)) in [("net/minecraft/V.class", "net/minecraft/V"), ("Top.class", "Top"), ("com/lib/L.class", "com/lib/L"), ("net/minecraft/sub/W$1.class", "net/minecraft/sub/W$1")].iter().enumerate() {
+		for prefix in [base.as_str(), ""] {
+			let mut c = plain_class(cname);
+			c.version = 5 + (n as usize % 3);
+			c.fields = vec![plain_member("shared", "I")];
+			c.methods = vec![AMember { payload: Some(i as i8), ..plain_member("run", "()V") }];
+			// an input that was merged before: marks of either side are there already
+			if i == 1 { c.vis = vec![AAnn::Env(Side::Server)]; c.methods[0].inv = vec![AAnn::Env(Side::Client)]; }
+			let mut s = c.clone();
+			if placement == 3 {
+				c.methods.push(AMember { payload: Some(1), ..plain_member("onlyClient", "()V") }); c.itfs.push("IC".into());
+				s.fields.push(plain_member("onlyServer", "J")); s.itfs.push("IS".into());
+				if i == 1 { c.methods[1].inv = vec![AAnn::Env(Side::Server)]; s.fields[1].inv = vec![AAnn::Env(Side::Server), AAnn::Other("ann/A0".into())]; }
+			}
+			put(format!("{prefix}{entry}"), AContent::Class(c), AContent::Class(s));
+		}
+	}
+	put(format!("{base}data.txt"), AContent::Other(b"v".to_vec()), AContent::Other(if placement == 3 { b"w".to_vec() } else { b"v".to_vec() }));
+	put(format!("{base}x.class.txt"), AContent::Other(b"t".to_vec()), AContent::Other(b"t".to_vec()));
+	put(base.clone(), AContent::Dir, AContent::Dir);
+	put("META-INF/versions/".to_owned(), AContent::Dir, AContent::Dir);
+	(client, server)
+}
+
+/// The third jar of a two-step merge merge(merge(c, s), t) / merge(t, merge(c, s)): the server again, the client again, or a
+/// later build of one of them (entries dropped and added, members and interfaces added or removed, resources changed) —
+/// headers, flags of shared members and inner-class records stay as they are, so the second merge is inside the hypotheses
+pub fn third_jar(rng: &mut Rng, client: &AJar, server: &AJar) -> (&'static str, AJar) {
+	let mode = rng.below(4);
+	let src = if mode % 2 == 0 { server } else { client };
+	if mode < 2 { return (if mode == 0 { "the server jar again" } else { "the client jar again" }, src.clone()); }
+	let mut t: AJar = vec![];
+	for e in src {
+		if rng.chance(1, 5) { continue; }
+		let mut e = e.clone();
+		match &mut e.content {
+			AContent::Class(c) => match rng.below(5) {
+				0 => c.methods.push(AMember { payload: Some(9), ..plain_member("later", "()V") }),
+				1 => { if !c.fields.is_empty() { c.fields.remove(0); } }
+				2 => c.itfs.push("ILater".into()),
+				3 => { if !c.methods.is_empty() { let k = rng.below(c.methods.len()); c.methods[k].payload = c.methods[k].payload.map(|v| v.wrapping_add(1)); } }
+				_ => {}
+			},
+			AContent::Other(d) => { if rng.chance(1, 3) { d.push(7); } }
+			_ => {}
+		}
+		t.push(e);
+	}
+	if rng.chance(1, 2) { let mut c = plain_class("Later"); c.methods = vec![AMember { payload: Some(3), ..plain_member("m", "()V") }]; t.push(AEntry::new("net/minecraft/Later.class", gen_time(rng), AContent::Class(c))); }
+	if rng.chance(1, 2) { t.push(AEntry::new("assets/later.txt", gen_time(rng), AContent::Other(b"later".to_vec()))); }
+	if rng.chance(1, 2) { rng.shuffle(&mut t); }
+	(if mode == 2 { "a later build of the server jar" } else { "a later build of the client jar" }, t)
 }
